@@ -287,6 +287,18 @@ fn gradient_case(rng: &mut Rng, idx: u64, out: &mut Out) {
             return;
         }
     };
+    if std::env::var("NV_DEBUG").is_ok() {
+        let r: RNet<f64> = RNet::plain(&cfg, &params);
+        let tr = r.forward(&Val::from_f32(cfg.input, &x));
+        let (pre, post, _, _) = net.forward(&xin);
+        for i in 0..cfg.layers.len() {
+            if let Some(st) = &tr.steps[i] {
+                eprintln!("layer {} ref pre {:?}\n        lib pre {:?}", i, st.pre.d, flat(&pre[i]));
+            }
+            eprintln!("layer {} ref out {:?}\n        lib out {:?}", i, tr.outs[i].d, flat(&post[i + 1]));
+        }
+        eprintln!("target {:?}", target);
+    }
     let refs = ref_param_grads(&cfg, &params, &x, &|y: &Val<D>| obj_loss(Obj::MSE, &y.d, &tf));
     for (co, d) in refs.iter() {
         out.count("gradient_entries_compared", 1);
